@@ -3,7 +3,7 @@ K3 no early exit past required comparisons, K4 no one-sided escape clause."""
 import ast
 import re
 
-from ..core import AnalysisError, norm, short, walk_local, parent_chain, stale_loop_uses
+from ..core import AnalysisError, norm, short, walk_local, parent_chain, stale_loop_uses, reaching_assign
 from . import register
 from ..inline import inlined_view
 
@@ -231,6 +231,101 @@ def _k6(ctx, R, cc):
     R.floor("counterpart lookups (K6)", 5)
 
 
+def _k7_k8(ctx, R, cc):
+    """K7: an assertion whose condition cannot be false compares nothing.  K8: a way through a two-sided method that knows an optional
+    attribute is missing on one side knows it is missing on the other side too."""
+    from ..paths import stmt_paths, expand
+    P = ctx.P
+    R.rule("K7", "no assertion of the comparer is vacuous: its condition is not a value that is always true (a tuple, a non-empty literal)")
+    R.rule("K8", "optional attributes: a path that finds the attribute missing on one side requires it missing on the other")
+    n7 = n8 = 0
+    for mname, f0 in sorted(cc.methods.items()):
+        f = inlined_view(P, f0)
+        S = Sides(f)
+        for a in walk_local(f.node):
+            if not isinstance(a, ast.Assert):
+                continue
+            n7 += 1
+            t = a.test
+            if isinstance(t, ast.Name):
+                d = reaching_assign(a, t.id)
+                if d is not None and d.value is not None:
+                    t = d.value
+            vac = (isinstance(t, (ast.Tuple, ast.List, ast.Set)) and t.elts) or (isinstance(t, ast.Dict) and t.keys) or isinstance(t, (ast.Lambda, ast.JoinedStr)) \
+                or (isinstance(t, ast.Constant) and bool(t.value))
+            if vac:
+                R.bad("K7", "%s|vacuous|%s" % (f.key, short(a.test, 40)), f.loc(a),
+                      "%s asserts `%s`, which is `%s`: a %s is true whatever it contains, so the comparison inside it is never enforced"
+                      % (mname, short(a.test, 40), short(t, 50), type(t).__name__.lower()))
+            else:
+                R.ok("K7", "%s: assert %s" % (mname, short(a.test, 40)), f.loc(a))
+        if len(f.params) < 3 or _side_of_name(f.params[1]) != "O" or _side_of_name(f.params[2]) != "C":
+            continue
+        body = [s_ for s_ in f.node.body if not (isinstance(s_, ast.Expr) and isinstance(s_.value, ast.Constant))]
+        paths = list(stmt_paths(body, frozenset(), {}, None, None, opaque_loops=True))
+        if any(oc is None for oc, fa, df in paths):
+            continue
+        # presence compared outright somewhere: (a is None) == (b is None)
+        presence = set()
+        for c in walk_local(f.node):
+            if isinstance(c, ast.Compare) and len(c.ops) == 1 and isinstance(c.ops[0], (ast.Eq, ast.Is)):
+                for x in (c.left, c.comparators[0]):
+                    for y in ast.walk(x):
+                        if isinstance(y, ast.Compare) and len(y.ops) == 1 and isinstance(y.ops[0], (ast.Is, ast.IsNot)) and isinstance(y.comparators[0], ast.Constant) \
+                                and y.comparators[0].value is None:
+                            presence.add(S.erase(y.left))
+        reported = set()
+        for oc, fa, df in paths:
+            if oc == "raise":
+                continue
+            missing = {}
+            for atom_ in fa:
+                m = re.match(r"(is)\((.+),None\)$", atom_) or re.match(r"(falsy)\((.+)\)$", atom_)
+                if not m:
+                    continue
+                try:
+                    e = ast.parse(m.group(2), mode="eval").body
+                except SyntaxError:
+                    continue
+                if not isinstance(e, (ast.Attribute, ast.Name, ast.Subscript)):
+                    continue
+                sd = S.of(e)
+                if sd in ("O", "C"):
+                    missing.setdefault(S.erase(e), {})[sd] = m.group(2)
+            # what the path knows about the counterpart at all (present, missing, or compared with something)
+            known = set()
+            for atom_ in fa:
+                m = re.match(r"(isnot|truthy|is|falsy|eq|ne)\((.+)\)$", atom_)
+                if not m:
+                    continue
+                for part in m.group(2).split(","):
+                    try:
+                        e = ast.parse(part, mode="eval").body
+                    except SyntaxError:
+                        continue
+                    if isinstance(e, (ast.Attribute, ast.Name, ast.Subscript)) and S.of(e) in ("O", "C"):
+                        known.add((S.erase(e), S.of(e)))
+            for er, sides in missing.items():
+                n8 += 1
+                if len(sides) == 2 or er in presence:
+                    continue
+                other = "C" if "O" in sides else "O"
+                if (er, other) in known:
+                    continue  # the path says something about the counterpart as well (e.g. the disjunct `a is None and b is not None and id(a) == id(b)`)
+                if er in reported:
+                    continue
+                reported.add(er)
+                only = list(sides.values())[0]
+                R.bad("K8", "%s|one-sided absence|%s" % (f.key, er), f.loc(),
+                      "%s can finish normally on a path where `%s` is known to be missing and nothing is required of its counterpart on the other side: "
+                      "an element that has it on one side only passes as equal" % (mname, only))
+        if not reported:
+            R.ok("K8", "%s: absence of an optional attribute is never established on one side only" % mname, f.loc())
+    R.count("assertions of the comparer (K7)", n7)
+    R.floor("assertions of the comparer (K7)", 30)
+    R.count("absence facts on finishing paths (K8)", n8)
+
+
 @register("C20",
           "Static analysis of Comparer: K1 two-sided taint — every ==/!=/is inside an assert and every call of a two-sided helper has one "
           "operand derived from the original and one from the copy, on matching access paths (same-side comparisons are only allowed as "
@@ -243,6 +338,7 @@ def check_c20(ctx, R):
     P = ctx.P
     cc = P.cls(CMP, "Comparer")
     _k6(ctx, R, cc)
+    _k7_k8(ctx, R, cc)
     R.rule("K1", "two-sidedness of every asserted comparison and two-sided helper call")
     R.rule("K2", "required comparisons are present")
     R.rule("K3", "no early exit past required comparisons")
